@@ -394,7 +394,8 @@ int main(int argc, char **argv) {
   C.rule = "case = one encoded message (enc) or one reader instance with everything fed to it (rnew..); non-trivial = a valid "
            "message was encoded and read back / the reader reported at least one message; distinct = hash of the case's op lines";
   if (!C.replay.empty()) { for (auto &l : readLines(C.replay)) exec(l); endCase(); C.finish(); return 0; }
-  Rng R(C.seed);
+  // vh::Rng streams of consecutive seeds are shifts of each other by one draw: scramble the seed first
+  Rng R(Ctx::hash("C17/" + std::to_string(C.seed)));
   encoderSection(R);
   readerSection(R);
   endCase();
